@@ -301,12 +301,27 @@ def ensure_corr(seed, tier, build):
         implB, orderB, hsB, stB = run('dev', b_path, 'twinB')
         ntw = 0
         interrupted = 0
+        incomplete = 0
         for h in orderA:
             HA, HB = Hist(hsA[h], implA[h]), Hist(hsB[h], implB[h])
             interrupted += sum(1 for r in HA.recs if r['status'] == 'ok' and r['ret'] == [1])
             va, ba = final_state(HA)
             vb, bb = final_state(HB)
             ntw += 1
+            fa, fb = (va or {}).get(('flags', None)), (vb or {}).get(('flags', None))
+            if fa != fb or not fa or fa[1:] != [1, 1, 1]:
+                incomplete += 1      # a step was left unfinished in one of the runs: not comparable
+                continue
+            if HA.variant == 'ngt':
+                # the NFT draw of the combined step starts in the call in which the guaranteed
+                # sub-step completes; in the single-call run that is the first call, whose random
+                # stream has already handed out one seed - a legitimately different NFT outcome.
+                # Compare everything except the NFT outcome (SFT kinds, fee refunds).
+                ft = HA.nft0[0]
+                ba = {k: x for k, x in ba.items() if k[1] not in (5, ft)}
+                bb = {k: x for k, x in bb.items() if k[1] not in (5, ft)}
+                va = {k: x for k, x in va.items() if k[0] not in ('wonNft', 'confirmedNft')}
+                vb = {k: x for k, x in vb.items() if k[0] not in ('wonNft', 'confirmedNft')}
             if va != vb or ba != bb:
                 dv = [k for k in (va or {}) if (vb or {}).get(k) != va[k]][:4] if va and vb else ['snapshot missing']
                 dbal = [k for k in set(ba) | set(bb) if ba.get(k) != bb.get(k)][:4]
@@ -314,7 +329,7 @@ def ensure_corr(seed, tier, build):
                                           'msg': 'interrupted and single-call runs end differently: views %r balances %r' % (dv, dbal),
                                           'run': 'twinA', 'hid': h, 'variant': HA.variant, 'profile': 'dev', 'call': '',
                                           'twin': hsB[h]})
-        res['stats']['twin'] = {'pairs': ntw, 'interrupted_calls': interrupted, 'A': stA, 'B': stB}
+        res['stats']['twin'] = {'pairs': ntw, 'interrupted_calls': interrupted, 'not_comparable': incomplete, 'A': stA, 'B': stB}
         # ---- wrap profile (deployment arithmetic)
         wh, _, wk, wc = generate(seed + 2, n_wrap, tag='w')
         wpath = os.path.join(work, 'wrap.hist')
